@@ -2,7 +2,7 @@ SPECIFICATION Spec
 CONSTANTS
   RepAll = TRUE
   Mode = "mc"
-  MaxNodes = 8
+  MaxNodes = 7
   Enabled = {"Module", "Fn", "Call", "Deref", "Array"}
   FlagSets <- FlagSets_none
   VarForms <- VarForms_init
